@@ -627,7 +627,7 @@ func duelProgram(rng *rand.Rand, which int) program {
 	n := 2 + rng.Intn(3)
 	m := func(op, k string, v int) opSpec { return opSpec{Obj: "map", Op: op, K: k, V: v, N: 99} }
 	a := func(op, k string, v int) opSpec { return opSpec{Obj: "atomic", Op: op, K: k, V: v} }
-	sel := which % 16
+	sel := which % 18
 	switch {
 	case sel == 10 || sel == 11: // the LoadAndDelete duel has a narrow window: three slots of sixteen
 		sel = 0
@@ -636,7 +636,7 @@ func duelProgram(rng *rand.Rand, which int) program {
 		// through the handle it got, then Loads: every Add must return init + (Adds before it) for the init of
 		// whoever created the counter, and the final value is init + all Adds.  The starts are spread over ~1 us
 		// so that a late-comer finds the entry just after the creator released the map lock.
-		n := 5 + rng.Intn(2) // measured: the more late-comers, the more often one lands in the creator's window (and the dearer the search)
+		n := 7 + rng.Intn(3) // measured: the more late-comers, the more often one lands in the creator's window (TraceLin's eager rule keeps the search small)
 		return program{Name: "duel-getorcreate-then-add", Jitter: 24 + 8*rng.Intn(4),
 			Procs: rep(n, func(i int) []opSpec {
 				ops := []opSpec{{Obj: "atomic", Op: "getorcreate", K: "a", V: 100 * (i + 1)}, {Obj: "atomic", Op: "hadd", K: "a", V: 1, HSel: -1, Tight: true}}
@@ -644,6 +644,20 @@ func duelProgram(rng *rand.Rand, which int) program {
 					ops = append(ops, opSpec{Obj: "atomic", Op: "hload", K: "a", HSel: -1})
 				}
 				return ops
+			})}
+	case sel >= 16:
+		// plain volleys of Add(1) on ONE shared counter, fired from the barrier: every Add returns a different
+		// number (the value after it), whatever the interleaving
+		n := 8 + rng.Intn(5) // cheap for TLC (the results fix the order) and measured: the more adders, the more duplicates a late read produces
+		add := opSpec{Obj: "atomic", Op: "hadd", K: "a", V: 1, HSel: 0}
+		addT := add
+		addT.Tight = true
+		return program{Name: "duel-add-volley", Setup: []opSpec{{Obj: "atomic", Op: "getorcreate", K: "a", V: 10}},
+			Procs: rep(n, func(i int) []opSpec {
+				if i == 0 {
+					return []opSpec{add, addT, add, {Obj: "atomic", Op: "hload", K: "a", HSel: 0, Tight: true}}
+				}
+				return []opSpec{add, addT, addT}
 			})}
 	case sel >= 14:
 		// appenders against readers that take Len then Slice (and Slice then Len) back to back: a Len of n must
